@@ -316,10 +316,20 @@ package types
 //@   pure
 //@   results n
 //@   ensures n == len(r.m)
+// The cached hash of a record is a function of its keys in sorted order and of the *hashes* of the
+// values stored under them - nothing else about the values (their text, their layout) enters. Two Equal
+// records have the same keys and pairwise Equal values, hence (eq_hash) the same value hashes, hence the
+// same recHash chain (induction on the key list, outside the solver). The mixing itself is abstract.
+//@ spec func recHash(keys []String, m RecordMap, i int) $HState
+//@ axiom recHash_unfold: forall keys []String, m RecordMap, i int :: { recHash(keys, m, i) } recHash(keys, m, i) == ((i <= 0) ? fnvInit() : fnvU64(fnvStr(recHash(keys, m, i - 1), string(keys[i - 1])), hashOf(m[keys[i - 1]])))
 //@ func NewRecord
 //@   props C11
 //@   pure
 //@   results rec
+//@   ensures hash_empty: len(m) == 0 ==> rec.hashVal == 0
+//@   assert before "hashVal = h.Sum64()" hash_of_sorted_entries: h == recHash(orderedKeys, m, len(orderedKeys))
+//@   loop 1
+//@     invariant h == recHash(orderedKeys, m, $i)
 //@   ensures forall k String :: has(rec.m, k) == has(m, k)
 //@   ensures forall k String :: has(m, k) ==> rec.m[k] == m[k]
 //@   ensures len(rec.m) == len(m)
